@@ -55,6 +55,21 @@ pub fn eval(op: &str, a: &[&str]) -> Option<String> {
             let _ = candid::IDLArgs::from_bytes_with_types_with_config(&b, &candid::TypeEnv::new(), &[candid::types::TypeInner::Reserved.into()], &cfg);
             Some("ok".into())
         }
+        "p.c06.refshare" => {
+            // a func reference whose argument type is shared over a[0] levels (every level mentions the next one twice), decoded at a
+            // separately spelled, equal expected type under a decoding quota: the work is bounded by the quota, not by 2^levels
+            let n: usize = a[0].parse().ok()?;
+            let chain = |pre: &str| -> Env { (0..=n).map(|i| (format!("{}{}", pre, i), if i == n { T::p("nat") } else { T::rec(vec![(0, T::var(&format!("{}{}", pre, i + 1))), (1, T::var(&format!("{}{}", pre, i + 1)))]) })).collect() };
+            let (wenv, eenv) = (chain("W"), chain("E"));
+            let (wt, et) = (T::Func(vec![T::var("W0")], vec![], vec![]), T::Func(vec![T::var("E0")], vec![], vec![]));
+            let msg = message(&wenv, &[wt], &[V::Func(vec![1, 2], b"m".to_vec())], 0);
+            let cfg = config(Some(100_000), Some(100_000));
+            let t0 = std::time::Instant::now();
+            let r = candid::IDLArgs::from_bytes_with_types_with_config(&msg, &crate::ty::to_env(&eenv), &[et.to_type()], &cfg);
+            let ms = t0.elapsed().as_millis();
+            if ms > 8000 { return Some(format!("FAIL {} ms under a decoding quota of 100000 for a {}-byte message ({} levels of shared types)", ms, msg.len(), n)); }
+            Some(match r { Ok(_) => "ok".into(), Err(e) => format!("FAIL a reference at an equal type is rejected: {}", e.to_string().lines().next().unwrap_or("")) })
+        }
         "p.c08.bounded" => {
             // a[0] bounded vector type, a[1] message of a vector: native decoding accepts it exactly when it is within the limits
             let b = sx::unhex(a[1]);
@@ -377,6 +392,9 @@ pub fn generate(prop: &str, thorough: bool, r: &mut Rng, em: &mut Emit) {
                 safe.push(h(&format!("4449444c 01 6a 00 00 00 01 00 01 01 00 {}", len)));
                 safe.push(h(&format!("4449444c 01 6e 71 01 00 01 {}", len)));
             }
+            // references with deeply SHARED signatures at a separately spelled expected type, under a quota (graded: a checker that forgets
+            // what it has proved needs 2^levels comparisons; the smaller levels fail by the time limit before the larger ones hang)
+            for n in [4usize, 12, 18, 22, 24, 26] { em.stat("reference.shared-signature"); em.case_nt("p.c06.refshare", &[n.to_string()], true); }
             // long chains in the TYPE TABLE: table_i = record { 0 : table_(i+1) } ... record {}   and   opt / vec chains
             for n in [100usize, 1000, 4000, 9990] {
                 for (code, tail) in [(0x6cu8, vec![0x6cu8, 0x00]), (0x6e, vec![0x6e, 0x7f]), (0x6d, vec![0x6d, 0x7f])] {
